@@ -7,6 +7,7 @@ package flags
 import (
 	"fmt"
 	"reflect"
+	"sort"
 	"strconv"
 	"strings"
 	"time"
@@ -130,13 +131,13 @@ func convertToString(val reflect.Value, options multiTag) (string, error) {
 
 		return ret + "]", nil
 	case reflect.Map:
-		ret := "{"
+		// Render the entries in the order of their keys: the iteration
+		// order of a map is random
+		mkeys := val.MapKeys()
+		keyitems := make([]string, len(mkeys))
+		items := make(map[string]string, len(mkeys))
 
-		for i, key := range val.MapKeys() {
-			if i != 0 {
-				ret += ", "
-			}
-
+		for i, key := range mkeys {
 			keyitem, err := convertToString(key, options)
 
 			if err != nil {
@@ -149,7 +150,20 @@ func convertToString(val reflect.Value, options multiTag) (string, error) {
 				return "", err
 			}
 
-			ret += keyitem + ":" + item
+			keyitems[i] = keyitem
+			items[keyitem] = item
+		}
+
+		sort.Strings(keyitems)
+
+		ret := "{"
+
+		for i, keyitem := range keyitems {
+			if i != 0 {
+				ret += ", "
+			}
+
+			ret += keyitem + ":" + items[keyitem]
 		}
 
 		return ret + "}", nil
